@@ -70,6 +70,9 @@ func cmdGen(args []string) {
 			b = g.behC11()
 		case "C04J":
 			b = M{"kind": g.pick("fresh", "session", "session", "mutate", "mutate", "bomb", "bomb", "copybin", "copybin", "helpers"), "i": i}
+			if g.chance(0.01) {
+				b["kind"] = "flood"
+			}
 		case "C04F":
 			b = g.behC04F()
 		default:
